@@ -11,8 +11,11 @@ mod checks;
 mod density;
 mod driver;
 mod entropy;
+mod gen_sched;
 mod prng;
 mod props_chain;
+mod props_sched;
+mod sched;
 mod swarm;
 
 use driver::{Tier, harness_error};
